@@ -2,6 +2,7 @@ package main
 
 import (
 	"fmt"
+	"os"
 	"go/types"
 	"strings"
 
@@ -478,6 +479,14 @@ func (m *Machine) checkViolation(label, kind string, extra []*Term, kfs []string
 		return
 	}
 	v := &Violation{Label: label, Kind: kind, Site: m.repoSite(), Model: model, Trace: append([]int{}, m.trace...), KFs: kfs, Outside: outside, usedNL: m.usesNL()}
+	if os.Getenv("GOSYM_DEBUG") != "" {
+		for _, c := range m.pc {
+			fmt.Fprintf(os.Stderr, "  PC %s\n", m.in.Show(c))
+		}
+		for _, c := range extra {
+			fmt.Fprintf(os.Stderr, "  EXTRA %s\n", m.in.Show(c))
+		}
+	}
 	v.Case = m.buildCase(label, model)
 	m.res.Violations = append(m.res.Violations, v)
 }
